@@ -158,10 +158,11 @@ def run(tier, seed):
     bins = {k: build.build(k)["vdriver"] for k in ("dbg", "rel")}
     n, depth = (40000, 4) if tier == "quick" else (500000, 5)
     payloads = [{"seed": seed, "shard": i, "n": n // NCPU, "depth": depth, "bin": bins["dbg"], "kind": "dbg"} for i in range(NCPU)]
+    payloads += [{"seed": seed, "shard": 100 + i, "n": n // NCPU // 4, "depth": depth, "bin": bins["rel"], "kind": "rel"} for i in range(NCPU)]     # release build: wrapping arithmetic
     acc = run_shards(shard, payloads)
     return finish(PID, tier, seed, "exploration", acc, RULE, t0,
                   assumptions=["unit scales are measured through `1 U to <base units>` (judged by C05); exponent vectors come from the frozen reference",
-                               "debug-assertion build only: the assertion that constructed units carry no zero power is part of what is watched"],
+                               "debug-assertion build (the assertion that constructed units carry no zero power is part of what is watched) and, for a quarter of the workload, the release build"],
                   min_eval=1000)
 
 def replay(path):
